@@ -1,0 +1,29 @@
+//go:build !verif
+
+package gojq
+
+const (
+	verifOptConstObject = iota
+	verifOptConstArray
+	verifOptUnaryLiteral
+	verifOptConstIndex
+	verifOptConstSetpath
+	verifOptInlineIdentity
+	verifOptInlineOneInstr
+	verifOptIfConstBranches
+	verifOptBindExpbegin
+	verifOptIfExpbegin
+	verifOptIndexExpbegin
+	verifOptTailRec
+	verifOptCodeOps
+)
+
+func verifOptOff(int) bool { return false }
+
+func verifNoInline(int) bool { return false }
+
+func verifIndexDeopt(x *Index) *Index { return x }
+
+func (*compiler) verifCompileUnarySlow(*Unary) error { return nil }
+
+func (*env) verifStep(int, bool) {}
